@@ -2,6 +2,8 @@
 # Entry point used by MANIFEST.json: ./run.sh <ID> <quick|thorough>  |  ./run.sh replay <ID> <file>
 cd "$(dirname "$0")" || exit 2
 export GOFLAGS=-mod=mod GOPROXY=off GOSUMDB=off GOTOOLCHAIN=local
+# everything (work dir, binaries, evidence, replays, regressions) is relative to the directory this script lives in
+export VERIF_DIR="${VERIF_DIR:-$(pwd)}"
 mkdir -p .bin
 if [ ! -x .bin/verifrun ] || [ cmd/verifrun/main.go -nt .bin/verifrun ]; then
   go build -o .bin/verifrun ./cmd/verifrun || exit 2
